@@ -75,6 +75,14 @@ def run_policy(prop, tier, seed, work, sig_fields, extra_env=None, nontrivial=No
             ev = evs[d["line"] - 1]
             guards = [g for g in d["guards"] if g.startswith("G_%s_" % prop)]
             d2 = again.get(k + 1)
+            if ev["case"].get("storm"):
+                # a certificate issued while other users' requests were in flight: the row alone cannot bring the same
+                # interleaving back, the certificate that came out is the evidence
+                sig = {"action": "Issue", "guards": guards, "concurrent": True}
+                sig.update(sig_fields(ev))
+                if res.classify(sig, ev, known) == "violation":
+                    res.sample({"deviation": d, "event": ev})
+                continue
             if not d2 or not set(guards) & set(d2["guards"]):
                 res.notes.append("deviation at row %d did not reproduce; ignored" % d["line"])
                 continue
